@@ -57,6 +57,8 @@ class ScriptRunner:
                 kind = rng.choice(['copy', 'apply', 'apply', 'remove', 'clear', 'slice', 'slice', 'index', 'iadd', 'add', 'add',
                                    'addStr', 'ljust', 'rjust', 'center', 'assign', 'simplify', 'strip', 'removeprefix',
                                    'removesuffix', 'replace', 'render', 'find'])
+            if names and max(len(vars_[k]._s) for k in names) > 200 and kind in ('iadd', 'add', 'addStr', 'replace', 'center', 'ljust', 'rjust'):
+                kind = 'slice'          # bounded work: a slow operation is not a hanging one
             self.stats['ops'][kind] = self.stats['ops'].get(kind, 0) + 1
             sarg = (lambda: bad_sargs(rng) if rng.random() < 0.08 else good_sargs(rng))
             mk = lambda a: P.build_sarg(a, self.mod)
